@@ -12,7 +12,7 @@ Definition yob (b : bool) (o : option gexpr) : list item := match o with Some c 
 Definition conv_param (b : bool) (p : string * pkind * option gexpr) : string * pkind * option (list item) :=
   (fst (fst p), snd (fst p), match snd p with Some d => Some (yb b d) | None => None end).
 Definition dict_item (b : bool) (kv : option gexpr * gexpr) : list item :=
-  (match fst kv with None => [IStr "None"] | Some k => yb b k end) ++ [IStr ": "] ++ yb b (snd kv).
+  (match fst kv with None => [IStr "**"] | Some k => yb b k ++ [IStr ": "] end) ++ yb b (snd kv).
 
 Lemma it_Str b s : iterate b (GStr s) = [IStr s]. Proof. reflexivity. Qed.
 Lemma it_Name b n p : iterate b (GName n p) = [IExpr (GName n p)]. Proof. reflexivity. Qed.
@@ -33,7 +33,7 @@ Lemma it_Dict b items :
   iterate b (GDict items) = [IStr "{"] ++ ijoin [IStr ", "] (map (dict_item b) items) ++ [IStr "}"].
 Proof. reflexivity. Qed.
 Lemma it_DictComp b k v gens :
-  iterate b (GDictComp k v gens) = [IStr "{"] ++ yb b k ++ [IStr ": "] ++ yb b v ++ ijoin [IStr " "] (map (yb b) gens) ++ [IStr "}"].
+  iterate b (GDictComp k v gens) = [IStr "{"] ++ yb b k ++ [IStr ": "] ++ yb b v ++ [IStr " "] ++ ijoin [IStr " "] (map (yb b) gens) ++ [IStr "}"].
 Proof. reflexivity. Qed.
 Lemma it_Formatted b v : iterate b (GFormatted v) = [IStr "{"] ++ yb b v ++ [IStr "}"]. Proof. reflexivity. Qed.
 Lemma it_GeneratorExp b e gens :
